@@ -98,6 +98,17 @@ func runEngineR1(p *Prog, o *obls) {
 						}
 					case *ssa.Phi:
 						follow(x, d+1)
+					case *ssa.Store:
+						// kept in a local variable that a closure captures (sort.Slice's less function): the loads of that cell
+						if al, ok := x.Addr.(*ssa.Alloc); ok && x.Val == v {
+							for _, nf := range allNested(fn) {
+								instrsOf(nf, func(in2 ssa.Instruction) {
+									if ld, ok := in2.(*ssa.UnOp); ok && ld.Op == token.MUL && cellAddr(ld.X) == ssa.Value(al) {
+										follow(ld, d+1)
+									}
+								})
+							}
+						}
 					case *ssa.Slice:
 						if x.X == v {
 							follow(x, d+1)
